@@ -20,7 +20,7 @@ ATTRS = {"a": {"href", "title"}, "img": {"src", "alt", "title"}, "ol": {"start"}
 TOK = re.compile(r'<(/?)([A-Za-z][A-Za-z0-9]*)((?: [A-Za-z][A-Za-z0-9-]*="[^"<>]*")*)( /)?>|((?:[^<>"&]|&(?:amp|lt|gt|quot);)+)')
 ATTR = re.compile(r' ([A-Za-z][A-Za-z0-9-]*)="([^"<>]*)"')
 BAD_AMP = re.compile(r"&(?!(?:amp|lt|gt|quot);)")
-STYLE_OK = re.compile(r"^text-align:(left|right|center)$")
+STYLE_OK = re.compile(r"^text-align:(left|right|center)\Z")
 
 
 def scan(html, stats=None):
